@@ -1,6 +1,7 @@
 package checks
 
 import (
+	"context"
 	"encoding/json"
 	"fmt"
 	"reflect"
@@ -19,14 +20,18 @@ import (
 // C17 — bridges to slices, maps and channels are exact and close exactly once.
 
 type c17Case struct {
-	Op       string  `json:"op"` // ToChannel | FromChannel | ToSlice | ToMap | Collect | MaterializeRoundTrip
-	Cap      int     `json:"capacity"`
-	Script   []rt.Ev `json:"script"`
-	Reads    int     `json:"reads"`       // ToChannel: the consumer stops reading after this many notifications (-1 = reads to the end)
-	ReadGap  int     `json:"read_gap_ms"` // pause between reads
-	UnsubAt  int     `json:"unsubscribe_after"` // unsubscribe after this many reads / sends (-1 never)
-	Async    bool    `json:"async_source"`
-	Close    bool    `json:"producer_closes"` // FromChannel: close the channel at the end (false = abandon it)
+	Op      string  `json:"op"` // ToChannel | FromChannel | ToSlice | ToMap | Collect | MaterializeRoundTrip
+	Cap     int     `json:"capacity"`
+	Script  []rt.Ev `json:"script"`
+	Reads   int     `json:"reads"`             // ToChannel: the consumer stops reading after this many notifications (-1 = reads to the end)
+	ReadGap int     `json:"read_gap_ms"`       // pause between reads
+	UnsubAt int     `json:"unsubscribe_after"` // unsubscribe after this many reads / sends (-1 never)
+	Async   bool    `json:"async_source"`
+	Close   bool    `json:"producer_closes"` // FromChannel: close the channel at the end (false = abandon it)
+	// CtxCancelled (ToChannel): subscribed with a context that is already cancelled.
+	// Whatever the operator makes of that (the documentation is silent: at most a
+	// cut), a reader of the channel is never left blocked once the stream has ended.
+	CtxCancelled bool `json:"subscriber_context_already_cancelled,omitempty"`
 }
 
 func init() {
@@ -46,7 +51,7 @@ func c17Run(tb rt.TB, t *testing.T, c c17Case) {
 			failure = &rt.Failure{Property: "C17", Check: "bridge", Op: c.Op, Class: class, Msg: msg, Case: c}
 		}
 	}
-	desc := fmt.Sprintf("%s(cap=%d) script=[%s] reads=%d gap=%dms unsubAt=%d async=%v close=%v", c.Op, c.Cap, rt.ScriptString(c.Script), c.Reads, c.ReadGap, c.UnsubAt, c.Async, c.Close)
+	desc := fmt.Sprintf("%s(cap=%d) script=[%s] reads=%d gap=%dms unsubAt=%d async=%v close=%v ctxCancelled=%v", c.Op, c.Cap, rt.ScriptString(c.Script), c.Reads, c.ReadGap, c.UnsubAt, c.Async, c.Close, c.CtxCancelled)
 	problem := bubble(t, func() {
 		sink := rt.NewSink()
 		switch c.Op {
@@ -59,7 +64,12 @@ func c17Run(tb rt.TB, t *testing.T, c c17Case) {
 			var handed []<-chan ro.Notification[int]
 			outerTerm := 0
 			obs := ro.NewObserver(func(ch <-chan ro.Notification[int]) { handed = append(handed, ch) }, func(error) { outerTerm++ }, func() { outerTerm++ })
-			sub := ro.ToChannel[int](c.Cap)(src).Subscribe(obs)
+			sctx, scancel := context.WithCancel(context.Background())
+			defer scancel()
+			if c.CtxCancelled {
+				scancel()
+			}
+			sub := ro.ToChannel[int](c.Cap)(src).SubscribeWithContext(sctx, obs)
 			synctest.Wait()
 			if len(handed) != 1 {
 				fail("channel-not-handed-out-exactly-once", fmt.Sprintf("%s: %d channels handed out at subscription", desc, len(handed)))
@@ -170,7 +180,7 @@ func c17Run(tb rt.TB, t *testing.T, c c17Case) {
 				fail("channel-sequence-differs", fmt.Sprintf("%s: the channel carried %v, the materialised stream is %v", desc, got, want))
 				return
 			}
-			if !cutByUs && len(got) != len(want) {
+			if !cutByUs && !c.CtxCancelled && len(got) != len(want) {
 				fail("channel-sequence-truncated", fmt.Sprintf("%s: the channel carried %v, the materialised stream is %v", desc, got, want))
 				return
 			}
@@ -442,6 +452,7 @@ func TestC17_ChannelsEnumerated(t *testing.T) {
 					// a synchronous source blocked on a full channel holds the library goroutine until the consumer reads: fine, but needs a reader
 				}
 				run(c17Case{Op: "ToChannel", Cap: cp, Script: s, Reads: -1, UnsubAt: -1, Async: async})
+				run(c17Case{Op: "ToChannel", Cap: cp, Script: s, Reads: -1, UnsubAt: -1, Async: async, CtxCancelled: true})
 				run(c17Case{Op: "ToChannel", Cap: cp, Script: s, Reads: -1, ReadGap: 2, UnsubAt: -1, Async: async})
 				for k := 0; k <= n; k++ {
 					run(c17Case{Op: "ToChannel", Cap: cp, Script: s, Reads: -1, UnsubAt: k, Async: async})
